@@ -369,6 +369,9 @@ var specialRunes = []rune{' ', ' ', 0x200D, 0x200C, 0x0301, 0x200F, '\n', 0xFE0F
 func (g *gstate) fontText(f int, maxLen int) []rune {
 	rs := g.e.fonts[f].Info.Runes
 	n := g.rng.Range(1, maxLen)
+	if ph := g.e.fonts[f].Info.Phrases; len(ph) > 0 && g.rng.Chance(1, 3) {
+		return append([]rune(nil), ph[g.rng.Intn(len(ph))]...)
+	}
 	out := make([]rune, 0, n)
 	if len(rs) == 0 {
 		for i := 0; i < n; i++ {
